@@ -91,8 +91,11 @@ class NpyFileChunkStore(ChunkStore):
     """
 
     def __init__(self, path, direct_write=False):
+        # Only a missing file is a missing chunk: any other OS error (permissions,
+        # I/O error, stale mount) means that the store itself cannot be read.
         # BadZipFile / TokenError: np.load on a file that is not NPY data at all
-        super().__init__({IOError: ChunkNotFound, ValueError: ChunkNotFound,
+        super().__init__({FileNotFoundError: ChunkNotFound, OSError: StoreUnavailable,
+                          ValueError: ChunkNotFound,
                           EOFError: ChunkNotFound, zipfile.BadZipFile: ChunkNotFound,
                           tokenize.TokenError: ChunkNotFound})
         if not os.path.isdir(path):
